@@ -98,6 +98,13 @@ def prove(res, gen_units, props_file):
     })
     axioms = sorted(set(v for v in thms.values())) if thms else []
     res.coverage["trusted_base"] = list(vlib.TRUSTED_COMMON) + ["Print Assumptions: " + "; ".join("%s: %s" % kv for kv in sorted(thms.items()))]
+    if ok and res.tier == "thorough":
+        # thorough tier: the compiled theorems and everything they depend on are re-checked by the independent checker
+        cok, ctext, dt = vlib.coqchk(props_file)
+        res.coverage["coqchk"] = "%s (%.0f s)" % (ctext, dt)
+        res.coverage["trusted_base"].append("coqchk -silent -o on %s: %s" % (props_file, ctext))
+        if not cok:
+            res.tie_broken.append("coqchk: " + ctext)
     return gen_ok
 
 
